@@ -222,8 +222,8 @@ def main():
 
 
 MANIFEST = {
-    "claimed": False,
-    "text": "",
-    "note": "",
-    "design_ref": "DESIGN.md 3 C11",
+    "claimed": True,
+    "text": "Theorems (Coq, closed under the global context, all histories of timers and usable / deny / ignored answers): the reach register is the 8-attempt window of the record of answered polls, tries counts attempts, and unanswered_polls = min(8, polls since the last usable answer) (8 before the first) (C11_reach_abs, C11_bits_are_marks); the reset is due iff >= 3 polls were made and none of the last 8 was answered, which on reachable states means the first three or the last eight polls all went unanswered (C11_reset_conditions); when due the timer returns exactly [Reset], or [Demobilize] iff an unauthenticated DENY/RSTR answer to the outstanding request was seen since the last usable answer, leaves the state unchanged and nothing is sent until a usable answer arrives (C11_reset, C11_nothing_further, C11_deny_flag); a plain source's timer resets iff due and otherwise sends (C11_plain_timer); a plain source whose every request is answered before the next timer is never reset (C11_never_reset_if_answering).",
+    "note": "Trusted: Coq kernel + vm_compute; hand-written model coq/Model/SrcCore.v tied to the real NtpSource by the event-by-event correspondence (plain sources in all four protocol-version states, NTS v4/v5); datagram classification is an input (C07-C09); the 5 s answer window is not exercised (C08); 'poll' = timer firing that passes the reachability test (for NTS sources a timer that finds no cookie also shifts the register without sending); before the first usable answer the register reports 8 missed polls whatever the number of polls; after Reset/Demobilize the daemon drops the source (the model keeps it and proves it silent).",
+    "design_ref": 'DESIGN.md 3 C11',
 }
